@@ -151,6 +151,10 @@ pub struct Machine {
     /// only PUT re-definitions are tolerated (overwrite)
     pub lenient_redefine: bool,
     pub memo_errors: Vec<DisError>,
+    /// proposal heuristic only (never used by an oracle): DUP and the GET family push a *shallow
+    /// copy* (new identity, same children) instead of an alias - the shape of the object graph a
+    /// simulator that copies would build
+    pub copy_on_alias: bool,
 }
 
 /// what `step` reports besides the R2 verdict
@@ -192,6 +196,19 @@ impl Machine {
             }
         }
         false
+    }
+
+    fn shallow_copy(&mut self, s: Slot) -> Slot {
+        let c = self.fresh(s.kind);
+        if self.track_graph {
+            if let Some(ch) = self.children.get(&s.id).cloned() {
+                self.children.insert(c.id, ch);
+            }
+            if let Some(d) = self.depth_of.get(&s.id).copied() {
+                self.depth_of.insert(c.id, d);
+            }
+        }
+        c
     }
 
     fn add_children(&mut self, parent: u32, kids: &[Slot]) {
@@ -445,12 +462,22 @@ impl Machine {
             "DUP" => {
                 if popped[0].is_mark() {
                     vec![self.fresh(Any), self.fresh(Any)]
+                } else if self.copy_on_alias {
+                    let c = self.shallow_copy(popped[0]);
+                    vec![popped[0], c]
                 } else {
                     vec![popped[0], popped[0]]
                 }
             }
             "MARK" => vec![self.fresh(Mark)],
-            "GET" | "BINGET" | "LONG_BINGET" => vec![get_slot.expect("GET without slot")],
+            "GET" | "BINGET" | "LONG_BINGET" => {
+                let g = get_slot.expect("GET without slot");
+                if self.copy_on_alias && !g.is_mark() {
+                    vec![self.shallow_copy(g)]
+                } else {
+                    vec![g]
+                }
+            }
             "MEMOIZE" => {
                 // the PUT-family branch above already rejected a mark / empty stack
                 vec![popped[0]]
